@@ -102,12 +102,14 @@ func VxH_C08_var() {
 // a shorthand holding var() expands after substitution, wherever it is declared
 // (style attribute or style sheet).
 func VxH_C08_var_shorthand() {
-	decl := []string{"margin: 1px 2px 3px var(--m)", "margin: var(--m)", "padding: 1px var(--m)", "border-width: var(--m) 2px"}[vx.Choose("decl", 4)]
+	// --p uses --m twice (an acyclic "diamond"); --q reaches --m through --p
+	decl := []string{"margin: 1px 2px 3px var(--m)", "margin: var(--m)", "padding: 1px var(--m)", "border-width: var(--m) 2px",
+		"padding: var(--p)", "margin: var(--q) var(--m)", "padding-left: calc(var(--m) + var(--m))"}[vx.Choose("decl", 7)]
 	mdef := []string{"4px", "0", "auto", "red"}[vx.Choose("m", 4)]
 	root := &utils.HTMLNode{Type: html.ElementNode, Data: "html", DataAtom: atom.Html}
 	body := &html.Node{Type: html.ElementNode, Data: "body", DataAtom: atom.Body}
 	(*html.Node)(root).AppendChild(body)
-	text := "--m: " + mdef + "; border-style: solid; " + decl
+	text := "--m: " + mdef + "; --p: var(--m) var(--m); --q: var(--p); border-style: solid; " + decl
 	if vx.Bool("in-style-attribute") {
 		body.Attr = []html.Attribute{{Key: "style", Val: text}}
 	} else {
@@ -124,6 +126,20 @@ func VxH_C08_var_shorthand() {
 	body2 := &html.Node{Type: html.ElementNode, Data: "body", DataAtom: atom.Body}
 	(*html.Node)(root2).AppendChild(body2)
 	spliced := ""
+	subst := func(in, name, by string) string {
+		out := ""
+		for i := 0; i < len(in); i++ {
+			if i+len(name) <= len(in) && in[i:i+len(name)] == name {
+				out += by
+				i += len(name) - 1
+			} else {
+				out += string(in[i])
+			}
+		}
+		return out
+	}
+	decl = subst(decl, "var(--q)", "var(--p)")
+	decl = subst(decl, "var(--p)", "var(--m) var(--m)")
 	for i := 0; i < len(decl); i++ {
 		if i+8 <= len(decl) && decl[i:i+8] == "var(--m)" {
 			spliced += mdef
